@@ -335,7 +335,11 @@ void UtilContext::print8(const char *token)
 
   // FIXME - is this right?
   if (get_range(token, &start, &end) == -1) { return; }
-  if (start >= end) { end = start + 128; }
+  // A single address shows 128 bytes (fewer at the top of the address space).
+  if (start >= end)
+  {
+    end = start > 0xffffffff - 128 ? 0xffffffff : start + 128;
+  }
 
   while (start < end)
   {
@@ -376,7 +380,11 @@ void UtilContext::print16(const char *token)
   int ptr = 0;
 
   if (get_range(token, &start, &end) == -1) { return; }
-  if (start >= end) { end = start + 128; }
+  // A single address shows 128 bytes (fewer at the top of the address space).
+  if (start >= end)
+  {
+    end = start > 0xffffffff - 128 ? 0xffffffff : start + 128;
+  }
 
   int mask = (alignment - 1) & 0x1;
 
@@ -444,7 +452,11 @@ void UtilContext::print32(const char *token)
   int ptr = 0;
 
   if (get_range(token, &start, &end) == -1) { return; }
-  if (start >= end) { end = start + 128; }
+  // A single address shows 128 bytes (fewer at the top of the address space).
+  if (start >= end)
+  {
+    end = start > 0xffffffff - 128 ? 0xffffffff : start + 128;
+  }
 
   if ((start & (alignment - 1)) != 0)
   {
